@@ -1224,7 +1224,11 @@ func (c *Canonicalizer) NormalizeOperand(v ssa.Value, context ssa.Instruction) s
 		if name, exists := c.registerMap[v]; exists {
 			return name
 		}
-		return fmt.Sprintf("<func_ref:%s:%s>", operand.Name(), sanitizeType(operand.Signature))
+		pkgPath := ""
+		if operand.Pkg != nil && operand.Pkg.Pkg != nil {
+			pkgPath = operand.Pkg.Pkg.Path() + "."
+		}
+		return fmt.Sprintf("<func_ref:%s%s:%s>", pkgPath, operand.Name(), sanitizeType(operand.Signature))
 	default:
 		return c.normalizeValue(v)
 	}
